@@ -160,6 +160,20 @@ Theorem is_thissystem_flag_and_env :
   (forall backends fl v, backends_is_thissystem backends fl (Some v) = negb (v =? 0)%Z).
 Proof. split; [exact flag_makes_thissystem|exact env_overrides_thissystem]. Qed.
 Print Assumptions is_thissystem_flag_and_env.
+(* hook selection is a function of the LAST load's (backends, flag, HWLOC_THISSYSTEM) only: whatever loads were
+   attempted before on the same handle (they must have failed, or the handle could not be loaded again), with
+   whatever configuration, the bit hwloc_set_binding_hooks reads is what a fresh handle would get *)
+Theorem hook_selection_independent_of_earlier_loads :
+  forall history c, thissystem_after (history ++ [c]) = thissystem_after [c].
+Proof. intros history c. rewrite (thissystem_last_load_only history c). symmetry. exact (thissystem_last_load_only [] c). Qed.
+Print Assumptions hook_selection_independent_of_earlier_loads.
+Example reuse_nonvacuous :
+  (* a failed XML load (clears the bit), then XML + IS_THISSYSTEM on the same handle: this system again *)
+  thissystem_after [LC [BK false 0] false None; LC [BK false 0] true None] = true /\
+  thissystem_after [LC [BK false 0] false None] = false /\
+  thissystem_after [LC [BK false 0] true None; LC [BK false 0] false None; LC [BK false (-1)] false None] = true.
+Proof. vm_compute. auto. Qed.
+
 Example xml_backend_is_foreign : backends_is_thissystem [BK false 0] false None = false /\ backends_is_thissystem [BK false 0] true None = true.
 Proof. vm_compute. auto. Qed.
 
